@@ -74,7 +74,8 @@ namespace nmtools::index
                     auto n   = len(repeats);
                     using common_t [[maybe_unused]] = meta::promote_index_t<decltype(r_a),decltype(n)>;
                     // TODO: support optional
-                    nmtools_assert ( (common_t)r_a == (common_t)n
+                    // numpy broadcasts repeats to the axis length: a length-1 repeats applies to every element
+                    nmtools_assert ( ((common_t)r_a == (common_t)n) || ((common_t)n == (common_t)1)
                         , "unsupported shape_repeat"
                         // numpy: ValueError: operands could not be broadcast together with shape
                     );
@@ -88,7 +89,11 @@ namespace nmtools::index
                     //        [3, 4]])
                     // at axis 0, first element x(axis,0) is not repeated (repeats(0)=1)
                     // while the second element x(axis,1) is repeated once (repeats(1)=2)
-                    at(ret,axis) = sum(repeats);
+                    if (((common_t)n == (common_t)1) && ((common_t)r_a != (common_t)1)) {
+                        at(ret,axis) = r_a * at(repeats,0);
+                    } else {
+                        at(ret,axis) = sum(repeats);
+                    }
                 }
                 else
                     at(ret,axis) = at(ret,axis) * repeats;
@@ -245,7 +250,10 @@ namespace nmtools::index
                     at(ret,i) = (((long long)i==m_axis) ? idx / repeats : idx);
                 } else {
                     auto csum = cumsum(repeats);
-                    if ((long long)i==m_axis) {
+                    if (((long long)i==m_axis) && (len(repeats) == 1)) {
+                        // length-1 repeats is broadcast to the axis length (same as a scalar)
+                        at(ret,i) = idx / at(repeats,0);
+                    } else if ((long long)i==m_axis) {
                         // note: len(repeats) == shape[axis]
                         // simply find arg of repeats such that idx >= accumulate(repeats)[args]
                         auto f = [&](auto a){
